@@ -134,3 +134,5 @@ K! { #[kani::unwind(14)] fn c10_ref_is_std_4() {
     kcover!(want.n == 12, "four replacements reachable");
     core::mem::forget(s);
 } }
+
+K! { #[kani::unwind(7)] fn c10_probe_1shape() { shapes!(dec; (4,1,2)) } }
